@@ -280,7 +280,7 @@ func (k *checker) render(i int, r *rand.Rand) {
 				g := k.guard(i, "Inspect"+which, gen, len(want), func() { err = call(ctx, e) })
 				if !g.Panicked {
 					if err != nil {
-						c.Oracle(i, "Inspect"+which, "rendering-failed", gen, "form %s: writing %d bytes to an in-memory writer failed: %v", f.name, len(want), err)
+						c.Oracle(i, "Inspect"+which, "rendering-failed", gen, "form %s: writing %d bytes to an in-memory writer failed: %s", f.name, len(want), errText(err))
 					} else {
 						k.checkBytes(i, "Inspect"+which, gen, f, want, w.buf.Bytes())
 					}
@@ -288,7 +288,7 @@ func (k *checker) render(i int, r *rand.Rand) {
 				out, err, panicked := k.runCLI(i, gen, strings.ToLower(which), wire, f, "", r)
 				if !panicked {
 					if err != nil {
-						c.Oracle(i, "cli inspect "+strings.ToLower(which), "rendering-failed", gen, "form %s: command failed on a well-formed endorsement file: %v", f.name, err)
+						c.Oracle(i, "cli inspect "+strings.ToLower(which), "rendering-failed", gen, "form %s: command failed on a well-formed endorsement file: %s", f.name, errText(err))
 					} else {
 						k.checkBytes(i, "cli inspect "+strings.ToLower(which), gen, f, want, out)
 						k.cliOK++
@@ -499,7 +499,7 @@ func (k *checker) reused(i int, r *rand.Rand) {
 				continue
 			}
 			if err != nil {
-				c.Oracle(i, "Inspect"+op, "rendering-failed", sgen, "step %d of a sequence on one *Inspect: writing %d bytes to an in-memory writer failed: %v", j, len(want), err)
+				c.Oracle(i, "Inspect"+op, "rendering-failed", sgen, "step %d of a sequence on one *Inspect: writing %d bytes to an in-memory writer failed: %s", j, len(want), errText(err))
 				continue
 			}
 			k.checkBytes(i, "Inspect"+op, sgen, formOf(bf, terms[j]), want, w.buf.Bytes())
